@@ -57,6 +57,11 @@ private theorem erase_length (l : List Int) (id : Int) (h : id ∈ l) : ((l.eras
   have : 0 < l.length := List.length_pos_of_mem h
   omega
 
+/-- the invariant only mentions the accounting fields: a step that leaves them alone keeps it -/
+local macro "keep_inv " hi:ident : tactic =>
+  `(tactic| exact ⟨($hi).wg_eq, ($hi).conserve, ($hi).once, ($hi).live_pos, ($hi).rej_errs, ($hi).retry_le, ($hi).pass_le,
+                   ($hi).icept_le, ($hi).icept_full, ($hi).seq_once, ($hi).seen_start, ($hi).waited_emp, ($hi).closed_w⟩)
+
 /-- every step the model accepts preserves the invariant -/
 theorem step_inv (s s' : St) (e : Ev) (h : step s e = .ok s') (hi : PInv s) : PInv s' := by
   cases e with
@@ -273,6 +278,26 @@ theorem step_inv (s s' : St) (e : Ev) (h : step s e = .ok s') (hi : PInv s) : PI
   | other =>
     simp only [step] at h
     injection h with h; subst h; exact hi
+  | stamp id e q =>
+    simp only [step] at h
+    injection h with h; subst h
+    keep_inv hi
+  | setStamp e f =>
+    simp only [step] at h
+    injection h with h; subst h
+    keep_inv hi
+  | sentEnd =>
+    simp only [step] at h
+    injection h with h; subst h
+    keep_inv hi
+  | reentry id b =>
+    simp only [step] at h
+    split at h
+    · injection h with h; subst h; keep_inv hi
+    · injection h with h; subst h; keep_inv hi
+  | sent id idx =>
+    simp only [step] at h
+    (repeat' split at h) <;> first | (cases h; done) | (injection h with h; subst h; keep_inv hi)
 
 /-- … hence every state reachable by an accepted event sequence satisfies it -/
 theorem run_inv (s s' : St) (es : List Ev) (h : run s es = .ok s') (hi : PInv s) : PInv s' := by
